@@ -37,6 +37,11 @@ class SubDE(DirectedEdge):
 class SubUE(UnDirectedEdge):
     pass
 
+class RoadEdge(DirectedEdge):
+    """a DirectedEdge subclass whose constructor names its two ends differently (positional use only)"""
+    def __init__(self, origin=None, destination=None, *, uid=None, attributes=None):
+        super().__init__(origin, destination, uid=uid, attributes=attributes)
+
 class OtherTE(TwoEndedLink):
     """a two-ended link type that is neither directed nor undirected ("unknown type")"""
 
@@ -66,6 +71,11 @@ class EqVertex(Vertex):
 
     def __hash__(self):
         return 11
+
+class UnhashVertex(Vertex):
+    """a Vertex subclass that defines __eq__ only: Python makes its instances unhashable"""
+    def __eq__(self, other):
+        return self is other
 
 class SlotVertex(Vertex):
     """a Vertex subclass that also declares __slots__ (its slot values are part of its state)"""
